@@ -1381,7 +1381,7 @@ static int PyEcho(int argc, char ** argv)
          const std::string want = FlatPlain(*m());
          (void) gw.AddOutgoingMessage(m); bigSent++;
          std::string have; bool gotOne = false; uint32 reads = 0;
-         const uint64 dl = GetRunTime64() + SecondsToMicros(180);
+         const uint64 dl = GetRunTime64() + SecondsToMicros(90);
          while ((gotOne == false)&&(GetRunTime64() < dl))
          {
             if (gw.HasBytesToOutput()) (void) gw.DoOutput(1+R(R(2) ? 70000 : 1000000));
@@ -1390,7 +1390,7 @@ static int PyEcho(int argc, char ** argv)
             MessageRef r; if (q.GetMessages().RemoveHead(r).IsOK()) {have = FlatPlain(*r()); gotOne = true;}
          }
          if ((gotOne)&&(have == want)) bigSame++;
-         else {char tmp[240]; snprintf(tmp, sizeof(tmp), "a Message of %u MB (frame does not fit one send()) echoed by the Python transceiver %s", mb[bi], gotOne ? "comes back with other bytes" : (ioError ? "cannot be read: the stream lost frame synchronisation / the connection broke" : "does not arrive within 180 s")); viol.push_back(tmp);}
+         else {char tmp[240]; snprintf(tmp, sizeof(tmp), "a Message of %u MB (frame does not fit one send()) echoed by the Python transceiver %s", mb[bi], gotOne ? "comes back with other bytes" : (ioError ? "cannot be read: the stream lost frame synchronisation / the connection broke" : "does not arrive within 90 s (the stream is short of bytes the frame announced?)")); viol.push_back(tmp);}
       }
    }
    fclose(tr);
